@@ -103,6 +103,8 @@ def verify_parse_contract(ctx, crate):
                     canon = False
             ctx.check(bound is not None and bound <= B30, "O8:bound:" + C.fkey(h), "%s returns Some(x) only for x < %s" % (C.short(h.id), bound),
                       "%s can return Some(x) without an upper bound <= 2^30 on x: x*4 overflows u32 or leaves the 30-bit name space" % C.short(h.id), where_of(h))
+            ctx.check(bound is not None and bound >= B30, "O8:bound-covers-printer:" + C.fkey(h), "%s accepts every number below 2^30 (all that Display prints for a numeric slot)" % C.short(h.id),
+                      "%s rejects numbers from %s on, but Slot::numeric / Display produce `$n` for every n < 2^30: the top of the range prints as a number that parses back as an ordinary NAME — a different slot with the same spelling (names not injective, print/parse does not round-trip)" % (C.short(h.id), bound), where_of(h))
             ctx.check(canon, "O8:canonical:" + C.fkey(h), "%s returns Some(x) only if x.to_string() == s (canonical decimal)" % C.short(h.id),
                       "%s turns text into a number without requiring the text to be the canonical decimal of the number: \"01\", \"+1\" and \"1\" denote the same slot (names not injective, printing does not invert parsing)" % C.short(h.id), where_of(h))
             out[h.id] = bound if canon else None
@@ -110,6 +112,8 @@ def verify_parse_contract(ctx, crate):
             bound, canon = _filter_contract(crate, h)
             ctx.check(bound is not None and bound <= B30, "O8:bound:" + C.fkey(h), "%s returns Some(x) only for x < %s (filter predicate)" % (C.short(h.id), bound),
                       "%s can return Some(x) without an upper bound <= 2^30 on x" % C.short(h.id), where_of(h))
+            ctx.check(bound is not None and bound >= B30, "O8:bound-covers-printer:" + C.fkey(h), "%s accepts every number below 2^30 (filter predicate)" % C.short(h.id),
+                      "%s rejects numbers from %s on, but Slot::numeric / Display produce `$n` for every n < 2^30: the top of the range parses back as an ordinary name" % (C.short(h.id), bound), where_of(h))
             ctx.check(canon, "O8:canonical:" + C.fkey(h), "%s returns Some(x) only if x.to_string() == s (filter predicate)" % C.short(h.id),
                       "%s turns text into a number without requiring the text to be the canonical decimal of the number" % C.short(h.id), where_of(h))
             out[h.id] = bound if canon else None
